@@ -75,8 +75,8 @@ Inductive c06_case :=
          (minq : res text) (re_min : res url_obs) (min2 : res text)
 (* URL(t) = r and the two fixed-point experiments *)
 | KParse (t : text) (o : list ora) (r : res url_obs) (f1 f2 m1 m2 : res text)
-(* find_all_links(t) returned n items (it must not raise) *)
-| KLinks (t : text) (n : res N)
+(* find_all_links(t, with_text=False / True, default_scheme=.., schemes=..): items (is-link, text) *)
+| KLinks (t : text) (plain withtext : res (list (bool * text)))
 (* spec validation (not about boltons): urllib.parse.urlsplit(t) = (scheme, netloc, path, query, fragment),
    '' for an absent part, compared with the Spec's Appendix-B split *)
 | KSplit (t : text) (sch au path q f : text).
@@ -192,10 +192,11 @@ Definition c06_verdict (c : c06_case) : verdict :=
      text_eqb (opt_text s') sch && text_eqb (opt_text a') au && text_eqb p' path &&
      text_eqb (opt_text q') q && text_eqb (opt_text f') f,
      false)
-  | KLinks t n =>
-    (* find_all_links wraps URL() in `except URLParseError`; URL() raises nothing else (C06_total) *)
-    (match n with Ok _ => true | Raise _ => false end,
-     match n with Ok _ => true | Raise _ => false end,
+  | KLinks t plain withtext =>
+    (* the regular expression is not modelled: the model only predicts that nothing is raised
+       (find_all_links wraps URL() in `except URLParseError`; URL() raises nothing else: C06_total) *)
+    (match plain, withtext with Ok _, Ok _ => true | _, _ => false end,
+     links_ok t plain withtext,
      false)
   end.
 
@@ -221,7 +222,7 @@ Definition c06_explain (c : c06_case) :=
     let mm1 := m_render O false u in
     ([mf1; m_render O true (m_reparse O true mf1); mm1; m_render O false (m_reparse O false mm1);
       MOk (if wf_ref true t then [1] else [0])], [m_obs u])
-  | KLinks t n => ([], [])
+  | KLinks t plain withtext => ([MOk (if match withtext with Ok w => fits w t | _ => false end then [1] else [0])], [])
   | KSplit t sch au path q f =>
     let '(s', a', p', q', f') := rfc_split t in
     ([MOk (opt_text s'); MOk (opt_text a'); MOk p'; MOk (opt_text q'); MOk (opt_text f')], [])
